@@ -21,7 +21,9 @@ package main
 // or = quantizeLevels (quality < 100), level count / min / max of quantizeLevels, and END-TO-END
 // webp.Encode (lossy) -> webp.Decode over AlphaCompression x AlphaFiltering x AlphaQuality x Method x Exact x pattern
 // x storage kind of the source (the nine kinds above) x bounds origin, plus wide pictures (WideWidths x WideHeights) and
-// threshold-crossing sizes (thresholds.go) with cheap content.
+// threshold-crossing sizes (thresholds.go) with cheap content, banded planes sized after the tile geometry of the
+// compressed plane (alBand*) and planes with exactly n levels around the colour-count thresholds, the last two
+// also in the chunk leg DecodeAlpha(EncodeAlpha(a)) = a.
 
 import (
 	"bytes"
@@ -959,9 +961,29 @@ type e2eCase struct {
 	cheap           bool           // content from GenCheapImage (cls = cheap kind) instead of GenImage
 	tc              *ThresholdCase // the size crosses this threshold (recorded in the distribution)
 	wide            bool           // member of the WideWidths x WideHeights family
+	band            *alBand        // alpha plane from genBandedPlane (acls is ignored)
+	levels          int            // > 0: alpha plane with exactly this many levels (GenAlphaLevelsImage; cls / acls ignored)
+	cc              *CountCase     // the level count sits on this threshold (recorded in the distribution)
+}
+
+// alphaName: the alpha class of the case for the distribution.
+func (c e2eCase) alphaName() string {
+	switch {
+	case c.band != nil:
+		return "banded-" + alBandVariantNames[c.band.variant]
+	case c.levels > 0:
+		return "levels"
+	}
+	return alphaClassNames[c.acls]
 }
 
 func (c e2eCase) class() string {
+	if c.band != nil {
+		return fmt.Sprintf("%dx%d/%s/%s", c.w, c.h, imgClassNames[c.cls], c.band.String())
+	}
+	if c.levels > 0 {
+		return fmt.Sprintf("%dx%d/flat/levels-%d", c.w, c.h, c.levels)
+	}
 	if c.cheap {
 		return cheapDesc(c.w, c.h, c.cls, c.acls)
 	}
@@ -970,6 +992,16 @@ func (c e2eCase) class() string {
 
 func (c e2eCase) gen(seed uint64) *image.NRGBA {
 	r := NewRNG(seed, 40_000_000+c.idx)
+	if c.band != nil {
+		img := GenImage(r, c.w, c.h, c.cls, AlphaNone)
+		for i, a := range genBandedPlane(r, *c.band) {
+			img.Pix[4*i+3] = a
+		}
+		return img
+	}
+	if c.levels > 0 {
+		return GenAlphaLevelsImage(r, c.w, c.h, c.levels)
+	}
 	if c.cheap {
 		return GenCheapImage(r, c.w, c.h, c.cls, c.acls)
 	}
@@ -1028,8 +1060,15 @@ func runE2E(rep *Report, cases []e2eCase) {
 					what, detail = "hang", fmt.Sprintf("webp.Encode -> webp.Decode did not return within %v", hangLimit)
 					rep.Add(hangFinding("Decode", "webp.Encode -> webp.Decode of "+desc, e2eInput(c, rep.Seed, img, false, "hang")))
 				}
-				rep.Eval(c.acls != AlphaNone && c.w*c.h > 1, []byte(desc))
-				rep.Count("e2e:alpha:" + alphaClassNames[c.acls])
+				rep.Eval((c.acls != AlphaNone || c.band != nil || c.levels > 1) && c.w*c.h > 1, []byte(desc))
+				rep.Count("e2e:alpha:" + c.alphaName())
+				if c.band != nil {
+					rep.Count(fmt.Sprintf("e2e:banded:%dx%d-m%d", c.w, c.h, c.o.method))
+				}
+				if c.cc != nil {
+					CountCount(rep, *c.cc)
+					rep.Count("e2e:levels:" + c.cc.String())
+				}
 				rep.Count("e2e:cfg:" + c.o.class())
 				rep.Count("e2e:storage:" + alStorageNames[c.pl.st])
 				rep.Count("e2e:origin:" + c.pl.originClass())
@@ -1088,11 +1127,181 @@ func runE2E(rep *Report, cases []e2eCase) {
 	wg.Wait()
 }
 
+// ---------- banded planes: sizes derived from the tile geometry of the compressed plane ----------
+
+// The compressed ALPH payload is a palette-coded VP8L picture whose entropy codes are chosen per tile of side
+// T = 2^(9-Method) (32 / 16 / 8 samples at Method 4 / 5 / 6). Every other plane / alpha class of this suite has
+// the same statistics from top to bottom and from left to right, so the per-tile entropy image is uniform
+// (or one tile row high). A banded plane has a smooth or few-level body and, along one edge, a band of
+// noisy / dithered translucent samples whose begin is a multiple of T: footer (rows split..h-1), header
+// (mirrored), right (columns split..w-1), left. The sizes give 3, 5, 6, 7 and 11 tile rows / columns, i.e.
+// partial trailing groups of tiles at every doubling of the tile size.
+type alBandSize struct{ w, h, method int }
+
+var alBandSizes = []alBandSize{{96, 96, 4}, {64, 224, 4}, {64, 96, 5}, {48, 112, 5}, {40, 56, 6}, {64, 88, 6}}
+
+const (
+	alBandFooter = iota
+	alBandHeader
+	alBandRight
+	alBandLeft
+	numAlBandVariants
+)
+
+var (
+	alBandVariantNames = []string{"footer", "header", "right", "left"}
+	alBandBodyNames    = []string{"periodic", "smooth", "few"}
+	alBandBandNames    = []string{"noise4", "noise", "dither", "noise-hi"}
+)
+
+type alBand struct {
+	w, h, method int
+	variant      int // alBandFooter ...
+	split        int // first row / column of the band (footer, right); extent of the band is n - split (mirrored for header, left)
+	body, band   int // content of the body and of the band
+}
+
+func alBandTile(method int) int { return 1 << uint(9-method) }
+
+func (b alBand) String() string {
+	return fmt.Sprintf("banded-%s@%d/%s+%s", alBandVariantNames[b.variant], b.split, alBandBodyNames[b.body], alBandBandNames[b.band])
+}
+
+func (b alBand) input() map[string]any {
+	return map[string]any{"banded": b.String(), "tile": alBandTile(b.method)}
+}
+
+// alBandSplits: where a band may begin along an axis of n samples with tile side t: the last tile (n-t rounded
+// down to a tile boundary) and the largest multiples of 2t, 4t, 8t below n - deepest (largest group) first.
+func alBandSplits(n, t int) []int {
+	var out []int
+	seen := map[int]bool{}
+	for _, g := range []int{8 * t, 4 * t, 2 * t, t} {
+		s := (n - 1) / g * g
+		if s > 0 && s < n && !seen[s] {
+			seen[s] = true
+			out = append(out, s)
+		}
+	}
+	return out
+}
+
+// genBandedPlane: deterministic in (r, b).
+func genBandedPlane(r *RNG, b alBand) []byte {
+	w, h := b.w, b.h
+	p := make([]byte, w*h)
+	nl := 3 + r.Intn(4)
+	lv := make([]byte, nl)
+	for i := range lv {
+		lv[i] = byte(32 + r.Intn(200))
+	}
+	blk := 2 + r.Intn(5)
+	base := byte(40 + r.Intn(150))
+	lo := byte(100 + r.Intn(100))
+	n := h
+	if b.variant == alBandRight || b.variant == alBandLeft {
+		n = w
+	}
+	for y := 0; y < h; y++ {
+		for x := 0; x < w; x++ {
+			k := y
+			if b.variant == alBandRight || b.variant == alBandLeft {
+				k = x
+			}
+			inBand := k >= b.split
+			if b.variant == alBandHeader || b.variant == alBandLeft {
+				inBand = k < n-b.split
+			}
+			var v byte
+			if inBand {
+				switch b.band {
+				case 0: // four translucent levels, 16 apart
+					v = 200 + byte(r.Intn(4))*16
+				case 1:
+					v = byte(r.Next())
+				case 2: // dither between neighbouring translucent levels
+					v = lo + byte(r.Intn(3))
+				default:
+					v = 128 + byte(r.Intn(128))
+				}
+			} else {
+				switch b.body {
+				case 0:
+					v = 40 + byte(((x%32)*3+(y%32)*2)&0x7f)
+				case 1:
+					v = base + byte((x*2+y*3)*60/maxi(2*w+3*h, 1))
+				default:
+					v = lv[((x/blk)*3+(y/blk))%nl]
+				}
+			}
+			p[y*w+x] = v
+		}
+	}
+	return p
+}
+
+// alBandDraw lists the banded planes of a run. Quick: for every size the footer band that begins at the deepest
+// split (the trailing partial group of tile rows at the coarsest doubling), plus three drawn from all other
+// variants / splits; thorough: every variant x split, three contents each.
+func alBandDraw(seed uint64, salt uint64, rich bool) []alBand {
+	var out []alBand
+	r := NewRNG(seed, 43_000_000+salt)
+	content := func(b alBand) alBand {
+		b.body, b.band = r.Intn(len(alBandBodyNames)), r.Intn(len(alBandBandNames))
+		return b
+	}
+	// many-level body: body and band certainly end up in different entropy groups (a few-level body packs the
+	// samples and mostly leaves one group)
+	manyLevels := func(b alBand) alBand {
+		b = content(b)
+		b.body = r.Intn(2)
+		return b
+	}
+	var others []alBand
+	for _, s := range alBandSizes {
+		t := alBandTile(s.method)
+		for v := 0; v < numAlBandVariants; v++ {
+			n := s.h
+			if v == alBandRight || v == alBandLeft {
+				n = s.w
+			}
+			for k, sp := range alBandSplits(n, t) {
+				b := alBand{w: s.w, h: s.h, method: s.method, variant: v, split: sp}
+				if v == alBandFooter && k == 0 {
+					out = append(out, manyLevels(b))
+					if rich {
+						out = append(out, content(b), manyLevels(b))
+					}
+					continue
+				}
+				others = append(others, b)
+			}
+		}
+	}
+	if rich {
+		for _, b := range others {
+			out = append(out, content(b), content(b), content(b))
+		}
+		return out
+	}
+	for i := len(others) - 1; i > 0; i-- {
+		j := r.Intn(i + 1)
+		others[i], others[j] = others[j], others[i]
+	}
+	for _, b := range others[:mini(3, len(others))] {
+		out = append(out, content(b))
+	}
+	return out
+}
+
+// alLevelSizes: plane sizes of at least 257 samples for the exact-level-count planes.
+var alLevelSizes = [][2]int{{16, 17}, {33, 9}, {20, 20}, {9, 40}, {64, 5}}
+
 // ---------- the suite ----------
 
 func suiteAlpha(rep *Report) error {
 	rich := rep.Tier == "thorough"
-	rep.Rule = "(a) planes of classes binary/few/gradient/noise/ramp/flat/smooth/near at sizes 1x1, 1xN, Nx1 … 64x64 (thorough: also 320x320): every filter and inverse filter, filter map, quantiser (float64 model exact, rational model counted), header bytes, extractAlpha/imageHasAlpha on the fast-path storages NRGBA / sub-image / RGBA / full-width sub-image band and on the generic-path storages image.Image-only wrapper / NRGBA64 / RGBA64 / Paletted (graded-alpha palette) / Alpha placed on rectangles with Min=(mx,my) drawn from negative, (k,0), (0,k), mixed and equal origins, EncodeAlpha raw and lossless (codec values handed to the model) incl. invalid configurations, all vs the Lean model; on Go alone unfilter(filter)=id, DecodeAlpha(EncodeAlpha)=id or =quantizeLevels, level count and min/max of quantizeLevels; (b) DecodeAlpha on every header byte 0..255 x raw payloads of right/short/long/empty length and on real lossless payloads under all 64 header variants, bad dimensions; (c) webp.Encode(lossy)->webp.Decode over AlphaCompression{0,1,-1} x AlphaFiltering{0,1,2,-1} x AlphaQuality{100,-1} x Method 0..6 x Exact x alpha pattern (decoded alpha == source alpha; opaque sources decode opaque) and AlphaQuality{0,1,50,70,71,99} (distinct decoded values <= documented count, min/max kept); the same oracle over source storage kind (the nine kinds above) x bounds origin (Min.X != Min.Y in most cases) x Exact{false,true}, over wide pictures WideWidths{1023..4097} x WideHeights{1..4} and over a draw of threshold-crossing sizes (width/height/pixels thresholds >= 200 of thresholds.go, at most 120000 pixels; thorough: all of them) with cheap content; a panic anywhere in Encode->Decode is a finding. non-trivial = protocol line with a payload / image with transparency and more than one pixel"
+	rep.Rule = "(a) planes of classes binary/few/gradient/noise/ramp/flat/smooth/near at sizes 1x1, 1xN, Nx1 … 64x64 (thorough: also 320x320): every filter and inverse filter, filter map, quantiser (float64 model exact, rational model counted), header bytes, extractAlpha/imageHasAlpha on the fast-path storages NRGBA / sub-image / RGBA / full-width sub-image band and on the generic-path storages image.Image-only wrapper / NRGBA64 / RGBA64 / Paletted (graded-alpha palette) / Alpha placed on rectangles with Min=(mx,my) drawn from negative, (k,0), (0,k), mixed and equal origins, EncodeAlpha raw and lossless (codec values handed to the model) incl. invalid configurations, all vs the Lean model; on Go alone unfilter(filter)=id, DecodeAlpha(EncodeAlpha)=id or =quantizeLevels, level count and min/max of quantizeLevels; (b) DecodeAlpha on every header byte 0..255 x raw payloads of right/short/long/empty length and on real lossless payloads under all 64 header variants, bad dimensions; (c) webp.Encode(lossy)->webp.Decode over AlphaCompression{0,1,-1} x AlphaFiltering{0,1,2,-1} x AlphaQuality{100,-1} x Method 0..6 x Exact x alpha pattern (decoded alpha == source alpha; opaque sources decode opaque) and AlphaQuality{0,1,50,70,71,99} (distinct decoded values <= documented count, min/max kept); the same oracle over source storage kind (the nine kinds above) x bounds origin (Min.X != Min.Y in most cases) x Exact{false,true}, over wide pictures WideWidths{1023..4097} x WideHeights{1..4} and over a draw of threshold-crossing sizes (width/height/pixels thresholds >= 200 of thresholds.go, at most 120000 pixels; thorough: all of them) with cheap content; BANDED planes / pictures whose size follows the tile geometry T = 2^(9-Method) of the compressed plane - 96x96 and 64x224 at Method 4, 64x96 and 48x112 at Method 5, 40x56 and 64x88 at Method 6 (3, 5, 6, 7, 11 tile rows) - with a periodic / smooth / few-level body and a band of 4-level noise, byte noise, dither or high noise that begins at a multiple of T, 2T, 4T or 8T: per run the footer band at the deepest split of every size (many-level body) plus three of the header / left / right / other-split variants (thorough: all variants x splits, three contents each), filters 0/1/2 rotating, AlphaQuality 100, lossless-compressed alpha, both in the chunk leg DecodeAlpha(EncodeAlpha(a)) = a with EffortLevel = Method and end to end; planes with EXACTLY n alpha levels for n drawn from the colour-count thresholds of thresholds.go (t-1, t, t+1 for t in 2, 4, 16, 192, 256; 8 per run, thorough all; GenAlphaLevelsImage, recorded as threshold:<t>colors) in the chunk leg (fast + none/best filter, raw), as filter-map lines against the model at effort 3 and 4, and end to end; a panic anywhere in Encode->Decode is a finding. non-trivial = protocol line with a payload / image with transparency and more than one pixel"
 
 	b := &alBatch{rep: rep}
 
@@ -1420,6 +1629,98 @@ func suiteAlpha(rep *Report) error {
 		wg.Wait()
 	}
 
+	// ---- chunk round trip of the banded planes (tile geometry) and of planes with exactly n levels ----
+	bands := alBandDraw(rep.Seed, 0, rich)
+	kLevels := 8
+	if rich {
+		kLevels = 1 << 20
+	}
+	var levelCases []CountCase
+	for _, cc := range DrawCountCases(rep.Seed, 0xa1c0, kLevels, "colors", 2, 260) {
+		if cc.N >= 1 && cc.N <= 256 { // 257 levels do not exist
+			levelCases = append(levelCases, cc)
+		}
+	}
+	{
+		type rtJob struct {
+			w, h                          int
+			p                             []byte
+			quality, method, mode, effort int
+			cls                           string
+			extra                         map[string]any
+		}
+		var rts []rtJob
+		for k, bd := range bands {
+			r := NewRNG(rep.Seed, 44_000_000+uint64(k))
+			p := genBandedPlane(r, bd)
+			mode := []int{0, 4, 5}[(k+int(rep.Seed%3))%3]
+			rep.Count("chunk-rt:banded:" + alBandVariantNames[bd.variant])
+			rep.Count(fmt.Sprintf("chunk-rt:banded:%dx%d-m%d", bd.w, bd.h, bd.method))
+			rts = append(rts, rtJob{bd.w, bd.h, p, 100, 1, mode, bd.method, "banded", bd.input()})
+			b.addPlane("alfmap", bd.w, bd.h, p, mkFmap(mode, bd.method), false)
+		}
+		for k, cc := range levelCases {
+			r := NewRNG(rep.Seed, 45_000_000+uint64(k))
+			sz := alLevelSizes[r.Intn(len(alLevelSizes))]
+			p := alphaOf(GenAlphaLevelsImage(r, sz[0], sz[1], cc.N))
+			if d, _, _ := planeStats(p); d != cc.N {
+				rep.Add(Finding{Kind: "correspondence", Property: "C07", Signature: "alpha-harness:levels-generator",
+					Detail: fmt.Sprintf("GenAlphaLevelsImage(%dx%d, %d) has %d levels", sz[0], sz[1], cc.N, d), Input: map[string]any{"op": "alline", "line": "allevels 0"}})
+			}
+			CountCount(rep, cc)
+			rep.Count("chunk-rt:levels:" + cc.String())
+			effort := r.Intn(7)
+			for _, mode := range []int{4, []int{0, 5}[r.Intn(2)]} {
+				rts = append(rts, rtJob{sz[0], sz[1], p, 100, 1, mode, effort, "levels", map[string]any{"levels": cc.N}})
+			}
+			rts = append(rts, rtJob{sz[0], sz[1], p, 100, 0, 4, effort, "levels", map[string]any{"levels": cc.N}})
+			// the filter choice of EncodeAlpha (16 / 192 levels) vs the model, at both effort classes
+			b.addPlane("alfmap", sz[0], sz[1], p, mkFmap(4, 3), false)
+			b.addPlane("alfmap", sz[0], sz[1], p, mkFmap(4, 4), false)
+		}
+		if err := b.run(); err != nil {
+			return err
+		}
+		doRT := func(i int) {
+			j := rts[i]
+			chk := func(w, h int, p []byte) string { return checkChunkRT(w, h, p, j.quality, j.method, j.mode, j.effort) }
+			rep.Eval(true, []byte(fmt.Sprintf("crt-%s %d %d %d %d %d %d %d", j.cls, j.quality, j.method, j.mode, j.effort, j.w, j.h, i)))
+			rep.Count(fmt.Sprintf("chunk-rt:method%d-mode%d", j.method, j.mode))
+			in := map[string]any{"quality": j.quality, "method": j.method, "mode": j.mode, "effort": j.effort}
+			for k, v := range j.extra {
+				in[k] = v
+			}
+			m, pm := guardT(func() string { return chk(j.w, j.h, j.p) })
+			switch {
+			case m == "skipped" || m == "":
+			case m == "hang":
+				hin := map[string]any{"op": "alpha-plane", "what": "chunk-roundtrip", "w": j.w, "h": j.h, "plane": hx(j.p)}
+				for k, v := range in {
+					hin[k] = v
+				}
+				rep.Add(hangFinding("DecodeAlpha", fmt.Sprintf("DecodeAlpha(EncodeAlpha(a)) on a %dx%d %s plane, quality %d method %d filter %d effort %d", j.w, j.h, j.cls, j.quality, j.method, j.mode, j.effort), hin))
+				rep.Add(Finding{Kind: "property", Property: "C07", Signature: fmt.Sprintf("alpha:chunk-roundtrip-hang:c%d-mode%d-m%d", j.method, j.mode, j.effort),
+					Detail: "DecodeAlpha(EncodeAlpha(a)) does not return", Input: hin})
+			default:
+				w, h, p, msg := shrinkPlaneProp(j.w, j.h, j.p, chk)
+				propFinding(rep, "chunk-roundtrip", fmt.Sprintf("c%d-mode%d-m%d", j.method, j.mode, j.effort),
+					fmt.Sprintf("%s %s (found on a %dx%d %s plane %v, shrunk to %dx%d)", msg, pm, j.w, j.h, j.cls, j.extra, w, h), w, h, p, in)
+			}
+		}
+		var wg sync.WaitGroup
+		nw := runtime.NumCPU()
+		for wk := 0; wk < nw; wk++ {
+			wg.Add(1)
+			go func(wk int) {
+				defer wg.Done()
+				for i := wk; i < len(rts); i += nw {
+					doRT(i)
+				}
+			}(wk)
+		}
+		wg.Wait()
+	}
+
 	if hangSeen.Load() {
 		rep.Notes = append(rep.Notes, "suite stopped early: a Go decode call did not return (see the hang finding)")
 		return nil
@@ -1594,6 +1895,26 @@ func suiteAlpha(rep *Report) error {
 			addCheap(tcs[k].W, tcs[k].H, &tcs[k], false, salt)
 		}
 		rep.CountN("e2e:threshold-cases-available", len(ThresholdCases(tf)))
+	}
+	// banded alpha planes (tile geometry of the compressed plane) and planes with exactly n levels: lossless-compressed
+	// alpha, AlphaQuality 100, decoded alpha == source alpha
+	e2eBands := alBandDraw(rep.Seed, 1, rich)
+	for k := range e2eBands {
+		bd := e2eBands[k]
+		r := NewRNG(rep.Seed, 46_000_000+uint64(k))
+		o := e2eOpts{[]int{1, 1, -1}[r.Intn(3)], (k + int(rep.Seed%3) + 1) % 3, []int{100, 100, -1}[r.Intn(3)], bd.method, r.Bool(), []int{50, 75, 90}[r.Intn(3)]}
+		eidx++
+		cases = append(cases, e2eCase{w: bd.w, h: bd.h, cls: []int{ClsPhoto, ClsFlat, ClsGradient, ClsPal16}[r.Intn(4)], idx: eidx, o: o, band: &bd})
+	}
+	for k := range levelCases {
+		cc := levelCases[k]
+		r := NewRNG(rep.Seed, 47_000_000+uint64(k))
+		sz := alLevelSizes[r.Intn(len(alLevelSizes))]
+		for _, filt := range []int{1, []int{0, 2}[r.Intn(2)]} {
+			o := e2eOpts{[]int{1, 1, 0, -1}[r.Intn(4)], filt, []int{100, -1}[r.Intn(2)], r.Intn(7), r.Bool(), []int{50, 75, 100}[r.Intn(3)]}
+			eidx++
+			cases = append(cases, e2eCase{w: sz[0], h: sz[1], idx: eidx, o: o, levels: cc.N, cc: &cc})
+		}
 	}
 	rep.CountN("e2e:encodes", len(cases))
 	runE2E(rep, cases)
